@@ -207,7 +207,7 @@ def members (strict : Bool) : Nat → Buf → Nat → Res
 end
 
 /-- fuel that always suffices (see `Lemmas/Fuel.lean`) -/
-def fuelFor (buf : Buf) : Nat := buf.size + 2
+def fuelFor (buf : Buf) : Nat := 2 * buf.size + 4
 
 /-- A document: whitespace, one value, whitespace, end of input. Returns the span of the value. -/
 def document (strict : Bool) (buf : Buf) : Option (Nat × Nat) :=
